@@ -444,6 +444,7 @@ def random_connection(rng, idx=0, v6=None, suite=None, features=None):
     f.setdefault("pn_big", rng.random() < 0.3)
     f.setdefault("v6", rng.random() < 0.3 if v6 is None else v6)
     f.setdefault("prefix_cid", rng.random() < 0.08 and not f["retry"])
+    f.setdefault("long", False)
     offer = list(SUITES)
     if f["offer_order"] == "suite-first":
         offer = [f["suite"]] + [c for c in offer if c != f["suite"]]
@@ -476,7 +477,7 @@ def random_connection(rng, idx=0, v6=None, suite=None, features=None):
     zr = [(0, 0, rng.randbytes(rng.randrange(1, 200)))] if f["zero_rtt"] else None
     c.handshake(ch_split=split, retry=f["retry"], zero_rtt=zr, coalesce_server=rng.random() < 0.7)
     offs = {}
-    n = rng.randrange(4, 14)
+    n = rng.randrange(4, 14) if not f.get("long") else rng.randrange(280, 420)      # long flows cross the 1-byte pn window
     ku_at = sorted(rng.sample(range(1, n), min(f["key_updates"], n - 1)))
     ncid_at = rng.randrange(1, n) if f["new_cid"] else None
     for i in range(n):
@@ -495,7 +496,7 @@ def random_connection(rng, idx=0, v6=None, suite=None, features=None):
             off = offs.get((d, sid), 0)
             offs[(d, sid)] = off + len(data)
             chunks.append((sid, off, data, rng.random() < 0.1))
-        pnlen = rng.choice([1, 1, 2, 3, 4])
+        pnlen = rng.choice([1, 1, 2, 3, 4]) if not f.get("long") else 1
         jump = rng.choice([0, 0, 0, 1, 3, 30]) if pnlen == 1 else rng.choice([0, 5, 200, 3000 if pnlen > 2 else 100])
         if f["pn_big"] and i < 8:
             # packet numbers start at 0 (RFC 9000 §12.3); large values are reached through gaps a 4-byte
